@@ -120,7 +120,10 @@ def emit(modname, cfgid, shape, ranks, mode, sp=None, laws=False, pre='', t_over
     kani::cover!(o == Some(Ordering::Greater), "oracle greater");
     kani::cover!(o.is_none(), "oracle none");
     assert!(PartialOrd::partial_cmp(&a, &b) == o, "partial_cmp differs from rank-order lexicographic oracle");
-{ordpart}}}
+{ordpart}    // the same object on both sides (a pointer-equality shortcut must not hide an incomparable field)
+    let oa = oracle_pcmp(&a, &a);
+    assert!(PartialOrd::partial_cmp(&a, &a) == oa, "partial_cmp(a, a) by the same reference differs from the oracle");
+}}
 '''
     hs = [h]
     if laws and live:
